@@ -12,7 +12,7 @@ COQ_TARGETS = ["Properties/C04.vo"]
 
 RULE = ("case = shape x byte string: valid encodings of random values; truncations at every prefix length and extensions; "
         "single-field corruption of every length / unsized-size / element-count / offset / length-copy / discriminant / bool "
-        "field with values {0,1,field+-1,255,2^16-1,2^31,2^32-1,2^63+1,2^64-1 (as width allows)}; pairs (an offset entry pushed beyond the data + a length/size field enlarged; element count and its trailing copy changed consistently); whole offset tables displaced; random bytes. The input "
+        "field with values {0,1,field+-1,255,2^16-1,2^31,2^32-1,2^63+1,2^64-1 (as width allows)}; pairs (an offset entry pushed beyond the data + a length/size field enlarged; element count and its trailing copy changed consistently); whole offset tables displaced; UnsizedString payloads overwritten with eight kinds of malformed UTF-8; random bytes. The input "
         "ends exactly at a PROT_NONE page and each case runs in a forked child (SIGSEGV = observation). Observed: outcome "
         "and value of the owned conversion, then the shared view's extent and every element each shared accessor / iterator "
         "yields with an inside-the-input flag. non-trivial = input that is neither a valid encoding nor rejected at the first "
@@ -66,6 +66,16 @@ def gen_cases(rng, tier):
                     b2 = list(bs)
                     b2[pos:pos + w] = U.le(x, w)
                     add(idx, desc, b2)
+            # string payloads that are not UTF-8 (every kind of malformed sequence, at the start / middle / end)
+            if j < 3:
+                for (sp, sl) in _string_spans(idx, ty, v):
+                    for bad in BAD_UTF8:
+                        if len(bad) > sl:
+                            continue
+                        for at in sorted({0, (sl - len(bad)) // 2, sl - len(bad)}):
+                            b2 = list(bs)
+                            b2[sp + at:sp + at + len(bad)] = bad
+                            add(idx, desc, b2)
             # two fields at once: an offset (an element's start or - as the NEXT entry - its end bound) pushed beyond the
             # data, together with a length / size field that then claims bytes outside the element's real slot
             offs2 = [f for f in fields if f[2] == "off"]
@@ -177,6 +187,54 @@ def _valid_bits(t, v):
     return True
 
 
+BAD_UTF8 = [[0xFF], [0x80], [0xC0, 0x80], [0xE2, 0x82], [0xED, 0xA0, 0x80], [0xF4, 0x90, 0x80, 0x80], [0xC3], [0xF0, 0x9F]]
+
+
+def _string_spans(idx, t, v, base=0, tpath=()):
+    """(payload offset, payload length) of every UnsizedString inside encode(t, v)"""
+    out = []
+    if U.role_at(idx, tpath) == "string":
+        lt = t[1][0]
+        out.append((base + lt[2], len(v[1][0][1])))
+        return out
+    k = t[0]
+    if k == "S":
+        pos = base
+        for i, (ft, fv) in enumerate(zip(t[1], v[1])):
+            out += _string_spans(idx, ft, fv, pos, tpath + (i,))
+            pos += len(U.encode(ft, fv))
+    elif k == "U":
+        n = len(v[1])
+        pos = base + 12 + n * (4 + t[2])
+        for _, e in v[1]:
+            out += _string_spans(idx, t[1], e, pos, tpath + ("*",))
+            pos += len(U.encode(t[1], e))
+    elif k == "E":
+        vt = dict(t[2])[v[1]]
+        out += _string_spans(idx, vt, v[2], base + t[1], tpath + ("V",))
+    return out
+
+
+def _strings_valid(idx, t, v, tpath=()):
+    """every UnsizedString of an owned value holds valid UTF-8 (a Rust String with anything else is an invalid value)"""
+    if U.role_at(idx, tpath) == "string":
+        bs = bytes(it[0] for it in v[1][0][1])
+        try:
+            bs.decode("utf-8")
+            return True
+        except UnicodeDecodeError:
+            return False
+    k = t[0]
+    if k == "S":
+        return all(_strings_valid(idx, ft, fv, tpath + (i,)) for i, (ft, fv) in enumerate(zip(t[1], v[1])))
+    if k == "U":
+        return all(_strings_valid(idx, t[1], e, tpath + ("*",)) for _, e in v[1])
+    if k == "E":
+        d = dict(t[2])
+        return v[1] not in d or _strings_valid(idx, d[v[1]], v[2], tpath + ("V",))
+    return True
+
+
 def predicate(c, obs):
     if obs is None or (obs and obs[0] == "UNPARSEABLE"):
         return "no observation"
@@ -190,6 +248,8 @@ def predicate(c, obs):
         v, _ = U.dec_val(own[1:])
         if not _valid_bits(ty, v):
             return "the owned conversion produced a field with an invalid bit pattern"
+        if not _strings_valid(idx, ty, v):
+            return "the owned conversion produced a String that is not valid UTF-8"
     # shared view: extent inside the input; every yielded element inside the input
     if scan[:1] == [0]:
         ext = scan[1]
